@@ -683,3 +683,113 @@ Proof.
 Qed.
 
 End Iter.
+
+(* ---------------------------------------------------------------------------------------------- *)
+(* sem: the local fixes on child lists, named                                                     *)
+(* ---------------------------------------------------------------------------------------------- *)
+Definition seq_sem (rec : node -> st -> res (list st)) : list node -> st -> res (list st) :=
+  fix seq (l : list node) (s : st) : res (list st) :=
+    match l with
+    | [] => Ok [s]
+    | x :: l' => bindr (rec x s) (seq l')
+    end.
+Definition alt_sem (rec : node -> st -> res (list st)) (s : st) : list node -> res (list st) :=
+  fix alt (l : list node) : res (list st) :=
+    match l with
+    | [] => Ok []
+    | x :: l' => appr (rec x s) (alt l')
+    end.
+
+Lemma mirror_sem_concat_eq : forall ev f o l s, sem ev (S f) (NConcat o l) s = seq_sem (sem ev f) l s.
+Proof. reflexivity. Qed.
+Lemma mirror_sem_alt_eq : forall ev f o l s, sem ev (S f) (NAlternate o l) s = alt_sem (sem ev f) s l.
+Proof. reflexivity. Qed.
+
+Lemma mirror_ok_list : forall l, forallb mirror_ok l = true -> Forall (fun x => mirror_ok x = true) l.
+Proof. intros l H. apply Forall_forall. now apply forallb_forall. Qed.
+
+(* ---------------------------------------------------------------------------------------------- *)
+(* The semantics never leaves the text: positions stay in [0, n], captures stay inside the text   *)
+(* ---------------------------------------------------------------------------------------------- *)
+Section Range.
+Variable e : env.
+Local Notation n := (tlen e).
+Local Notation ok := (st_ok e).
+
+Lemma mirror_seq_ok : forall rec,
+  (forall x s, mirror_ok x = true -> ok s -> res_all ok (rec x s)) ->
+  forall l s, Forall (fun x => mirror_ok x = true) l -> ok s -> res_all ok (seq_sem rec l s).
+Proof.
+  intros rec Hrec l. induction l as [|x l IH]; intros s Hl Hs.
+  - repeat constructor; apply Hs.
+  - inversion Hl; subst. cbn [seq_sem]. apply mirror_bindr_ok; [now apply Hrec|].
+    intros a Ha. now apply IH.
+Qed.
+
+Lemma mirror_alt_ok : forall rec s,
+  (forall x, mirror_ok x = true -> res_all ok (rec x s)) ->
+  forall l, Forall (fun x => mirror_ok x = true) l -> res_all ok (alt_sem rec s l).
+Proof.
+  intros rec s Hrec l. induction l as [|x l IH]; intros Hl.
+  - constructor.
+  - inversion Hl; subst. cbn [alt_sem]. apply mirror_appr_ok; [now apply Hrec|now apply IH].
+Qed.
+
+Lemma mirror_one_ok : forall s, ok s -> res_all ok (Ok [s]).
+Proof. intros s Hs. repeat constructor; apply Hs. Qed.
+
+Theorem sem_pos_in_range : forall fuel t s, mirror_ok t = true -> ok s -> res_all ok (sem e fuel t s).
+Proof.
+  induction fuel as [|f IH]; intros t s Ht Hs; [exact I|].
+  destruct t; cbn [mirror_ok] in Ht.
+  - (* Char *) cbn [sem res_all].
+    destruct ((0 <? avail e o (pos s)) && char_test e k c (next_char e o (pos s))) eqn:E; [|constructor].
+    constructor; [|constructor]. apply mirror_with_pos_ok; [assumption|].
+    apply mirror_avail_step; [apply Hs|lia].
+  - (* CharLoop *) cbn [sem res_all]. apply mirror_sem_charloop_ok; [lia|assumption].
+  - (* Multi *) cbn [sem res_all]. now apply mirror_sem_multi_ok.
+  - (* Ref *) cbn [sem res_all]. now apply mirror_sem_ref_ok.
+  - (* Anchor *) cbn [sem res_all]. destruct (anchor_ok e a (pos s)); repeat constructor; apply Hs.
+  - constructor.
+  - now apply mirror_one_ok.
+  - now apply mirror_one_ok.
+  - (* Concat *) rewrite mirror_sem_concat_eq. apply mirror_seq_ok; [exact IH|now apply mirror_ok_list|assumption].
+  - (* Alternate *) rewrite mirror_sem_alt_eq. apply mirror_alt_ok; [|now apply mirror_ok_list].
+    intros x Hx. now apply IH.
+  - (* Loop *) cbn [sem].
+    assert (Hb : forall s0, ok s0 -> res_all ok (sem e f t s0)) by (intros; now apply IH).
+    destruct (m =? 0).
+    + now apply mirror_iter_ok.
+    + apply mirror_bindr_ok; [now apply IH|]. intros a Ha. now apply mirror_iter_ok.
+  - (* Capture *) cbn [sem]. apply andb_prop in Ht. destruct Ht as [Hgu Ht].
+    destruct (u =? -1) eqn:Eu.
+    + apply mirror_bindr_ok; [now apply IH|]. intros a Ha. cbn [res_all].
+      constructor; [|constructor]. split; cbn [pos caps]; [apply Ha|].
+      apply mirror_cap_push_ok; [|apply Ha]. apply mirror_span_ok; [apply Hs|apply Ha].
+    + cbn [orb] in Hgu. rewrite Hgu.
+      apply mirror_bindr_ok; [now apply IH|]. intros a Ha.
+      destruct (cap_get u (caps a)); [constructor|]. cbn [res_all].
+      constructor; [|constructor]. split; cbn [pos caps]; [apply Ha|].
+      apply mirror_cap_pop_ok. apply Ha.
+  - (* Group *) cbn [sem]. now apply IH.
+  - (* PosLook *) cbn [sem].
+    pose proof (mirror_first_only_ok ok _ (IH t s Ht Hs)) as H.
+    destruct (first_only (sem e f t s)) as [l| | |]; cbn [bind res_all] in *; try exact I.
+    apply Forall_forall. intros x Hx. apply in_map_iff in Hx. destruct Hx as [a [<- Hin]].
+    rewrite Forall_forall in H. apply mirror_with_pos_ok; [now apply H|apply Hs].
+  - (* NegLook *) cbn [sem].
+    destruct (sem e f t s) as [[|a l]| | |]; cbn [bind res_all]; try exact I; [|constructor].
+    repeat constructor; apply Hs.
+  - (* Atomic *) cbn [sem]. apply mirror_first_only_ok. now apply IH.
+  - (* BackRefCond *) cbn [sem]. apply andb_prop in Ht. destruct Ht as [Hy Hn].
+    destruct (is_matched g (caps s)); [now apply IH|].
+    destruct no as [x|]; cbn [opt_forall] in Hn; [now apply IH|now apply mirror_one_ok].
+  - (* ExprCond *) cbn [sem]. apply andb_prop in Ht. destruct Ht as [Hcy Hn].
+    apply andb_prop in Hcy. destruct Hcy as [Hc Hy].
+    pose proof (mirror_first_only_ok ok _ (IH t1 s Hc Hs)) as H.
+    destruct (first_only (sem e f t1 s)) as [[|a l]| | |]; cbn [bind res_all] in *; try exact I.
+    + destruct no as [x|]; cbn [opt_forall] in Hn; [now apply IH|now apply mirror_one_ok].
+    + inversion H; subst. apply IH; [assumption|]. apply mirror_with_pos_ok; [assumption|apply Hs].
+Qed.
+
+End Range.
